@@ -1,11 +1,405 @@
 package main
 
-import "bufio"
+// HPACK area (C03, C04): operations on the real decoder/encoder of dgrr/http2.
+//
+//	hpack.int.dec <n> <hex>                      -> ok <v> rest=<k> | need-more | err
+//	hpack.int.enc <n> <flags> <v>                -> ok <hex>          (dst = [flags], appendInt(dst, n, v))
+//	hpack.str.dec <hex>                          -> ok <hex> rest=<k> | need-more | err
+//	hpack.str.enc <huff> <dsthex> <hex>          -> ok <hex appended after dst>
+//	hpack.dec <ctx> new                          -> ok
+//	hpack.dec <ctx> limit <n>                    -> ok tbl=.. max=.. lim=..   (SetMaxTableSize on a decoder)
+//	hpack.dec <ctx> field bs=<0|1> fp=<n> ks=<0|1> <hex>
+//	        -> ok name=<hex> value=<hex> sens=<0|1> rest=<k> tbl=<tbl> max=<n>
+//	         | none rest=<k> tbl=<tbl> max=<n> | need-more | err     (need-more/err: the context starts afresh)
+//	hpack.dec <ctx> frame cont=<0|1> eh=<0|1> <hex>     the loop of handleHeaderFrame over one frame payload
+//	        -> ok fields=<flds> carry=<k> tbl=<tbl> max=<n> | err fields=<flds>   (err: the context starts afresh)
+//	hpack.enc <ctx> new dc=<0|1> dd=<0|1>        -> ok
+//	hpack.enc <ctx> block                        -> ok                (marks the start of a header block)
+//	hpack.enc <ctx> setmax <n>                   -> ok tbl=<tbl> max=<n> pending=<0|1>
+//	hpack.enc <ctx> field store=<0|1> sens=<0|1> pre=<hex> <name> <value>
+//	        -> ok <hex appended> tbl=<tbl> max=<n> pending=<0|1>
+//	hpack.ref <ctx> new | limit <n> | block <hex>       reference decoder: x/net here, the Lean Spec in the driver
+//	        -> ok fields=<flds> ... | err
+//
+// <tbl>: entries newest first, hex(name):hex(value), a trailing ! when the stored entry carries the
+// never-indexed mark; "-" when empty. <flds>: hex(name):hex(value):<0|1>, comma separated, "-" when empty.
 
-// owned by the HPACK area (C03, C04)
+import (
+	"bytes"
+	"fmt"
+	"strconv"
+	"strings"
 
-type hpackCtx struct{}
+	http2 "github.com/dgrr/http2"
+	xhpack "golang.org/x/net/http2/hpack"
+)
 
-func (r *runner) runHpack(f []string) string            { return "bad-op" }
-func genHpackDec(p *prng, thorough bool, w *bufio.Writer) {}
-func genHpackEnc(p *prng, thorough bool, w *bufio.Writer) {}
+type hpackCtx struct {
+	hp   *http2.HPACK
+	hf   *http2.HeaderField
+	prev []byte
+
+	ref *xhpack.Decoder
+}
+
+var hpSentinel = []byte{0xff, 's', 'e', 'n', 't'}
+
+func newHpackCtx() *hpackCtx {
+	return &hpackCtx{hp: http2.AcquireHPACK(), hf: &http2.HeaderField{}}
+}
+
+func tblString(hp *http2.HPACK) (string, uint32, uint32, bool) {
+	tbl, max, lim, pend := http2.VerifHPACKDump(hp)
+	if len(tbl) == 0 {
+		return "-", max, lim, pend
+	}
+	var sb strings.Builder
+	for i, e := range tbl {
+		if i > 0 {
+			sb.WriteByte(',')
+		}
+		fmt.Fprintf(&sb, "%x:%x", e.Key, e.Value)
+		if e.Sensible {
+			sb.WriteByte('!')
+		}
+	}
+	return sb.String(), max, lim, pend
+}
+
+func b01(b bool) int {
+	if b {
+		return 1
+	}
+	return 0
+}
+
+func hpKV(s, key string) (string, bool) {
+	if strings.HasPrefix(s, key+"=") {
+		return s[len(key)+1:], true
+	}
+	return "", false
+}
+
+func kvInt(s, key string) (int, bool) {
+	v, ok := hpKV(s, key)
+	if !ok {
+		return 0, false
+	}
+	n, err := strconv.Atoi(v)
+	return n, err == nil
+}
+
+func fieldsString(fs [][3][]byte) string {
+	if len(fs) == 0 {
+		return "-"
+	}
+	var sb strings.Builder
+	for i, f := range fs {
+		if i > 0 {
+			sb.WriteByte(',')
+		}
+		fmt.Fprintf(&sb, "%x:%x:%d", f[0], f[1], f[2][0])
+	}
+	return sb.String()
+}
+
+func (r *runner) runHpack(f []string) string {
+	switch f[0] {
+	case "hpack.int.dec":
+		if len(f) != 3 {
+			return "bad-op"
+		}
+		n, err := strconv.Atoi(f[1])
+		b, ok := unhex(f[2])
+		if err != nil || !ok {
+			return "bad-op"
+		}
+		rest, v, e := http2.VerifReadInt(n, b)
+		switch {
+		case e == nil:
+			return fmt.Sprintf("ok %d rest=%d", v, len(rest))
+		case http2.VerifErrIsNeedMore(e):
+			return "need-more"
+		}
+		return "err"
+	case "hpack.int.enc":
+		if len(f) != 4 {
+			return "bad-op"
+		}
+		n, e1 := strconv.Atoi(f[1])
+		fl, e2 := strconv.Atoi(f[2])
+		v, e3 := strconv.ParseUint(f[3], 10, 64)
+		if e1 != nil || e2 != nil || e3 != nil {
+			return "bad-op"
+		}
+		return "ok " + hexOrDash(http2.VerifAppendInt([]byte{byte(fl)}, uint8(n), v))
+	case "hpack.str.dec":
+		if len(f) != 2 {
+			return "bad-op"
+		}
+		b, ok := unhex(f[1])
+		if !ok {
+			return "bad-op"
+		}
+		rest, s, e := http2.VerifReadString(nil, b)
+		switch {
+		case e == nil:
+			return fmt.Sprintf("ok %s rest=%d", hexOrDash(s), len(rest))
+		case http2.VerifErrIsNeedMore(e):
+			return "need-more"
+		}
+		return "err"
+	case "hpack.str.enc":
+		if len(f) != 4 {
+			return "bad-op"
+		}
+		dst, ok1 := unhex(f[2])
+		s, ok2 := unhex(f[3])
+		if !ok1 || !ok2 {
+			return "bad-op"
+		}
+		keep := append([]byte(nil), dst...)
+		out := http2.VerifAppendString(dst, s, f[1] == "1")
+		if len(out) < len(keep) || !bytes.Equal(out[:len(keep)], keep) {
+			return "prefix-modified " + hexOrDash(out)
+		}
+		return "ok " + hexOrDash(out[len(keep):])
+	case "hpack.dec":
+		return r.runHpackDec(f)
+	case "hpack.enc":
+		return r.runHpackEnc(f)
+	case "hpack.ref":
+		return r.runHpackRef(f)
+	}
+	return "bad-op"
+}
+
+func (r *runner) runHpackDec(f []string) string {
+	if len(f) < 3 {
+		return "bad-op"
+	}
+	name := "d:" + f[1]
+	if f[2] == "new" {
+		r.hp[name] = newHpackCtx()
+		return "ok"
+	}
+	c := r.hp[name]
+	if c == nil {
+		return "bad-op"
+	}
+	switch f[2] {
+	case "limit":
+		if len(f) != 4 {
+			return "bad-op"
+		}
+		n, err := strconv.ParseUint(f[3], 10, 32)
+		if err != nil {
+			return "bad-op"
+		}
+		c.hp.SetMaxTableSize(uint32(n))
+		t, max, lim, _ := tblString(c.hp)
+		return fmt.Sprintf("ok tbl=%s max=%d lim=%d", t, max, lim)
+	case "field":
+		if len(f) != 7 {
+			return "bad-op"
+		}
+		bs, ok1 := kvInt(f[3], "bs")
+		fp, ok2 := kvInt(f[4], "fp")
+		ks, ok3 := kvInt(f[5], "ks")
+		b, ok4 := unhex(f[6])
+		if !ok1 || !ok2 || !ok3 || !ok4 {
+			return "bad-op"
+		}
+		// the caller's HeaderField is reused from field to field (as handleHeaderFrame and readHeader
+		// do); name and value get a sentinel so that "no field was produced" is observable
+		c.hf.SetKeyBytes(hpSentinel)
+		c.hf.SetValueBytes(hpSentinel)
+		if ks == 0 {
+			http2.VerifSetSensible(c.hf, false)
+		}
+		rest, err := http2.VerifNextField(c.hp, c.hf, bs == 1, fp, b)
+		if err != nil {
+			r.hp[name] = newHpackCtx()
+			if http2.VerifErrIsNeedMore(err) {
+				return "need-more"
+			}
+			return "err"
+		}
+		t, max, _, _ := tblString(c.hp)
+		if bytes.Equal(c.hf.KeyBytes(), hpSentinel) && bytes.Equal(c.hf.ValueBytes(), hpSentinel) {
+			return fmt.Sprintf("none rest=%d tbl=%s max=%d", len(rest), t, max)
+		}
+		return fmt.Sprintf("ok name=%s value=%s sens=%d rest=%d tbl=%s max=%d", hexOrDash(c.hf.KeyBytes()),
+			hexOrDash(c.hf.ValueBytes()), b01(c.hf.IsSensible()), len(rest), t, max)
+	case "frame":
+		if len(f) != 6 {
+			return "bad-op"
+		}
+		cont, ok1 := kvInt(f[3], "cont")
+		eh, ok2 := kvInt(f[4], "eh")
+		b, ok3 := unhex(f[5])
+		if !ok1 || !ok2 || !ok3 {
+			return "bad-op"
+		}
+		fields, bad := c.headerFrame(cont == 1, eh == 1, b)
+		if bad {
+			r.hp[name] = newHpackCtx()
+			return "err fields=" + fieldsString(fields)
+		}
+		t, max, _, _ := tblString(c.hp)
+		return fmt.Sprintf("ok fields=%s carry=%d tbl=%s max=%d", fieldsString(fields), len(c.prev), t, max)
+	}
+	return "bad-op"
+}
+
+// headerFrame is the HPACK part of serverConn.handleHeaderFrame, transcribed: the carry-over of an
+// unfinished field in previousHeaderBytes, blockStart, fieldsProcessed, and what END_HEADERS does to a
+// field that is cut short. The message-level checks of that loop are not part of this area.
+func (c *hpackCtx) headerFrame(continuation, endHeaders bool, payload []byte) (fields [][3][]byte, bad bool) {
+	blockStart := !continuation && len(c.prev) == 0
+
+	b := append(c.prev, payload...)
+	c.prev = b[:0]
+
+	hf := http2.AcquireHeaderField()
+	defer http2.ReleaseHeaderField(hf)
+
+	var err error
+
+	fieldsProcessed := 0
+
+	for len(b) > 0 {
+		pb := b
+
+		b, err = http2.VerifNextField(c.hp, hf, blockStart, fieldsProcessed, b)
+		if err != nil {
+			if http2.VerifErrIsNeedMore(err) && len(pb) > 0 && !endHeaders {
+				err = nil
+				c.prev = append(c.prev, pb...)
+			} else {
+				bad = true
+			}
+
+			break
+		}
+
+		fields = append(fields, [3][]byte{append([]byte(nil), hf.KeyBytes()...), append([]byte(nil), hf.ValueBytes()...),
+			{byte(b01(hf.IsSensible()))}})
+		fieldsProcessed++
+	}
+
+	return fields, bad
+}
+
+func (r *runner) runHpackEnc(f []string) string {
+	if len(f) < 3 {
+		return "bad-op"
+	}
+	name := "e:" + f[1]
+	if f[2] == "new" {
+		if len(f) != 5 {
+			return "bad-op"
+		}
+		dc, ok1 := kvInt(f[3], "dc")
+		dd, ok2 := kvInt(f[4], "dd")
+		if !ok1 || !ok2 {
+			return "bad-op"
+		}
+		c := newHpackCtx()
+		c.hp.DisableCompression = dc == 1
+		c.hp.DisableDynamicTable = dd == 1
+		r.hp[name] = c
+		return "ok"
+	}
+	c := r.hp[name]
+	if c == nil {
+		return "bad-op"
+	}
+	switch f[2] {
+	case "block": // start of a header block: a marker for the oracle, nothing happens in the encoder
+		return "ok"
+	case "setmax":
+		if len(f) != 4 {
+			return "bad-op"
+		}
+		n, err := strconv.ParseUint(f[3], 10, 32)
+		if err != nil {
+			return "bad-op"
+		}
+		c.hp.SetMaxTableSize(uint32(n))
+		t, max, _, pend := tblString(c.hp)
+		return fmt.Sprintf("ok tbl=%s max=%d pending=%d", t, max, b01(pend))
+	case "field":
+		if len(f) != 8 {
+			return "bad-op"
+		}
+		store, ok1 := kvInt(f[3], "store")
+		sens, ok2 := kvInt(f[4], "sens")
+		pres, ok3 := hpKV(f[5], "pre")
+		pre, ok4 := unhex(pres)
+		n, ok5 := unhex(f[6])
+		v, ok6 := unhex(f[7])
+		if !ok1 || !ok2 || !ok3 || !ok4 || !ok5 || !ok6 {
+			return "bad-op"
+		}
+		hf := &http2.HeaderField{}
+		hf.SetBytes(n, v)
+		http2.VerifSetSensible(hf, sens == 1)
+		dst := append(make([]byte, 0, len(pre)+64), pre...)
+		out := c.hp.AppendHeader(dst, hf, store == 1)
+		if len(out) < len(pre) || !bytes.Equal(out[:len(pre)], pre) {
+			return "prefix-modified " + hexOrDash(out)
+		}
+		t, max, _, pend := tblString(c.hp)
+		return fmt.Sprintf("ok %s tbl=%s max=%d pending=%d", hexOrDash(out[len(pre):]), t, max, b01(pend))
+	}
+	return "bad-op"
+}
+
+// runHpackRef decodes with golang.org/x/net/http2/hpack: a sanity reference for the Lean Spec decoder,
+// which answers the same operations in the model driver. It is never the oracle.
+func (r *runner) runHpackRef(f []string) string {
+	if len(f) < 3 {
+		return "bad-op"
+	}
+	name := "r:" + f[1]
+	if f[2] == "new" {
+		r.hp[name] = &hpackCtx{ref: xhpack.NewDecoder(4096, nil)}
+		return "ok"
+	}
+	c := r.hp[name]
+	if c == nil || c.ref == nil {
+		return "bad-op"
+	}
+	switch f[2] {
+	case "limit":
+		if len(f) != 4 {
+			return "bad-op"
+		}
+		n, err := strconv.ParseUint(f[3], 10, 32)
+		if err != nil {
+			return "bad-op"
+		}
+		c.ref.SetAllowedMaxDynamicTableSize(uint32(n))
+		return "ok"
+	case "block":
+		if len(f) != 4 {
+			return "bad-op"
+		}
+		b, ok := unhex(f[3])
+		if !ok {
+			return "bad-op"
+		}
+		hfs, err := c.ref.DecodeFull(b)
+		if err != nil {
+			r.hp[name] = &hpackCtx{ref: xhpack.NewDecoder(4096, nil)}
+			return "err"
+		}
+		var fs [][3][]byte
+		for _, h := range hfs {
+			fs = append(fs, [3][]byte{[]byte(h.Name), []byte(h.Value), {byte(b01(h.Sensitive))}})
+		}
+		return "ok fields=" + fieldsString(fs)
+	}
+	return "bad-op"
+}
